@@ -212,6 +212,7 @@ class Machine(object):
         self.alloc_counter = 0
         self.literals = False           # concrete mode: string literals are values
         self.input_writable = False     # concrete mode: in-place transformers may store into the text
+        self.exact_regs = set()         # registers whose value may reach a comparison: kept exact / ranked when tracking
         self.tracking = False           # pebble mode: pointers know whether they sit on the pebble
         self.pa = None                  # pebble age: None unseen, k symbols ago, 'far', 'end'
         self.coarse_regs = True         # URI text-range fields hold NULL / placeholder / 'some input pointer'
@@ -376,7 +377,7 @@ class Machine(object):
             return
         if obj == ('G', 'URI') and path and path[-1] in ('first', 'afterLast'):
             self.obs.append(('reg-store', path, v, loc, st.eof))
-            if self.coarse_regs and v[0] in ('p', 'pp', 'e'):
+            if self.coarse_regs and path not in self.exact_regs and v[0] in ('p', 'pp', 'e'):
                 if v[0] == 'p' and v[1] > 0:
                     raise Finding('range-inside-input', 'reg-beyond:%s' % '.'.join(path), loc,
                                   'stores a pointer %d past the last character known to lie inside the range into %s'
